@@ -429,6 +429,7 @@ func TestC14(t *testing.T) {
 	rec.Suite("notify-vs-termination-stress", rec.N(240, 6000), func(c *ev.Case) {
 		c.Class("stress/kind=%d", c.I%3)
 		rounds := 400
+		var notClosed atomic.Bool
 		for round := 0; round < rounds; round++ {
 			mc := memnet.NewConn()
 			conn, err := diam.NewConn(mc, "peer", diam.HandlerFunc(func(diam.Conn, *diam.Message) {}), ctx.Parser)
@@ -465,6 +466,7 @@ func TestC14(t *testing.T) {
 					select {
 					case <-ch:
 					case <-time.After(20 * time.Second):
+						notClosed.Store(true)
 					}
 					done <- struct{}{}
 				}(w)
@@ -492,6 +494,10 @@ func TestC14(t *testing.T) {
 			}
 			mc.FeedEOF()
 			conn.Close()
+			if notClosed.Load() {
+				c.Fail(ev.Sig{"op": "not-closed-after-termination", "how": "stress"}, nil, nil, "round %d: a CloseNotify channel requested around the termination (kind %d) was not closed 20 s later", round, c.I%3)
+				return
+			}
 		}
 		// the connections' goroutines end asynchronously: wait for them, so that
 		// nothing of this suite is still running when the next one looks at the
